@@ -134,7 +134,7 @@ def gen_config(r, n, pool, w, clean=False):
         cfg["level255"] = v
         mp.append("l255@" + block_kv(255, v.items()))
     src_rpus = None
-    if r.random() < 0.2:
+    if r.random() < 0.3:
         ns = r.choice([n, n, n, n - 1, n + 1]) if not clean else n
         src_rpus = [r.choice(pool) for _ in range(max(0, ns))]
         p = w.write("src.bin", b"".join(b"\x00\x00\x00\x01" + R.escape(x) for x in src_rpus))
@@ -144,6 +144,10 @@ def gen_config(r, n, pool, w, clean=False):
         cfg["source_rpu"] = p
         if r.random() < 0.9 or clean:
             lv = r.sample(OG.ALL_LEVELS, r.randint(0 if not clean else 1, 3)) if r.random() < 0.9 or clean else []
+            # levels that other configured operations also write: the pass order decides who wins
+            for key, level in (("active_area", 5), ("level6", 6), ("level9", 9), ("level11", 11), ("level255", 255)):
+                if key in cfg and level not in lv and r.random() < 0.7:
+                    lv.append(level)
             cfg["rpu_levels"] = lv
             mp.append("levels@" + ",".join(map(str, lv)))
         src = "err" if src_rpus == "err" else (",".join((b"\x7c\x01" + R.escape(x)).hex() for x in src_rpus) or "err")
